@@ -478,6 +478,19 @@ def rule_copy(c, prog):
             c.ok(R, inst)
         else:
             c.violation(R, f"{name}|rewrite", f"{name}: rewrite_refs is not called exactly once, after the clone queue is drained, on every normal path", f.sp, instance=inst)
+        # every queued child is cloned: the drain loop clones and inserts unconditionally (a child skipped because
+        # "it has a copy already" leaves the copy under construction without that subtree)
+        drains = [n for n in core.walk_fn(f) if n.get("k") == "Loop" and n.get("src") in ("While", "WhileLet", "Loop") and any(x.get("k") == "MethodCall" and x["m"] in ("pop_front", "pop_back", "pop") for x in core.walk(n)) and any(x.get("k") == "MethodCall" and x["m"] == "clone_ref_as_builder" for x in core.walk(n))]
+        for lp in drains:
+            clone_calls = [x for x in core.walk(lp) if x.get("k") == "MethodCall" and x["m"] == "clone_ref_as_builder"]
+            skips = [x for x in core.walk(lp, into_closures=False) if x.get("k") == "Continue"]
+            conds = [y for y in core.walk(lp) if y.get("k") in ("If", "Match") and y.get("src") not in ("WhileDesugar", "ForLoopDesugar", "TryDesugar") and any(z is clone_calls[0] for z in core.walk(y.get("t") or {})) ]
+            # the loop's own `while let` test is an If/Match whose scrutinee holds the pop: not a skip
+            conds = [y for y in conds if not any(x.get("k") == "MethodCall" and x["m"] in ("pop_front", "pop_back", "pop") for x in core.walk(y.get("c") or y.get("e") or {}))]
+            if skips or conds:
+                c.violation(R, f"{name}|queue-skip", f"{name}: the loop that drains the clone queue can skip an item (`continue` / a condition around clone_ref_as_builder): a child that is skipped is missing from the copy, which is then not isomorphic to its original", core.loc((skips or conds)[0]), instance=f"{name}:queue-drained-completely")
+            else:
+                c.ok(R, f"{name}:queue-drained-completely")
         # a work item that is a struct: the pop site uses its two fields in the roles the push site filled them in
         if struct_roles:
             bad_role = None
